@@ -235,6 +235,11 @@ class Check(Property):
                          "dims": [None if d is None else d["d"] for d in c["dims"]]}]
             self.bump("check")
             out.append(c)
+        # conversions that are not a multiplication (offset scales) and conversions that depend on the active contexts,
+        # through ONE wrapped function called several times
+        for _ in range(40 if self.tier == "quick" else 600):
+            self.bump("wraps: offset scales / active context, repeated calls")
+            out.append({"kind": "repeat", "seed": rng.getrandbits(32), "ops": []})
         return out
 
     # ------------------------------------------------------------------ implementation
@@ -294,6 +299,8 @@ class Check(Property):
         return {"ok": {"recv": {k: val_j(v) for k, v in got.items()}, "ret": [val_j(x) for x in rl]}}, dup
 
     def impl(self, c):
+        if c["kind"] == "repeat":
+            return []
         try:
             o, dup = self.run_real(c)
         except Exception as exc:  # noqa: BLE001
@@ -303,6 +310,8 @@ class Check(Property):
         return [o]
 
     def expect(self, c, mo):
+        if c["kind"] == "repeat":
+            return mo
         m = mo[0]
         if "ok" in m and c["kind"] == "wraps":
             recv = {}
@@ -314,6 +323,8 @@ class Check(Property):
         return mo
 
     def same(self, c, io, mo):
+        if c["kind"] == "repeat":
+            return True
         i, m = io[0], mo[0]
         if "skip" in i or len({k for k, _ in c["kw"]}) != len(c["kw"]):
             return True       # a keyword given twice cannot be expressed in a Python call
@@ -323,6 +334,8 @@ class Check(Property):
         return canon(i) == canon(m)
 
     def nontrivial(self, c, io):
+        if c["kind"] == "repeat":
+            return f"repeat:{c['seed']}"
         if "ok" in io[0]:
             return canon({k: c[k] for k in ("sig", "specs", "args", "kw", "strict", "kind") if k in c})
         return None
@@ -335,7 +348,52 @@ class Check(Property):
     def dims(self, P, units):
         return {k: v for k, v in P.proj.dimensionality({k: Fraction(e) for k, e in units}).items() if v != 0}
 
+    def oracle_repeat(self, c):
+        import random
+        rng = random.Random(c["seed"])
+        u = regs.ureg("fraction")
+        v = []
+        K = {"kelvin": (Fraction(1), Fraction(0)), "degree_Celsius": (Fraction(1), Fraction(27315, 100)),
+             "degree_Fahrenheit": (Fraction(5, 9), Fraction(45967, 180)), "degree_Rankine": (Fraction(5, 9), Fraction(0))}
+        dst = rng.choice(sorted(K))
+        got = []
+        f = u.wraps(None, dst)(lambda x: got.append(x) or x)
+        for _ in range(rng.randint(2, 4)):
+            src = rng.choice(sorted(K))
+            t = Fraction(rng.randint(-40, 400), rng.choice([1, 2, 4]))
+            want = (t * K[src][0] + K[src][1] - K[dst][1]) / K[dst][0]
+            del got[:]
+            try:
+                f(u.Quantity(t, src))
+                if not got or got[0] != want:
+                    v.append(f"C17 wraps(None, {dst!r}) called with {t} {src}: the function received {got[0] if got else None!r}, "
+                             f"the conversion gives {want}")
+            except Exception as exc:  # noqa: BLE001
+                v.append(f"C17 wraps(None, {dst!r}) called with {t} {src}: raised {type(exc).__name__}: {exc}")
+        # a conversion only an active context allows: inside the context the rule applies, outside the call is refused
+        g = u.wraps(None, "terahertz")(lambda x: got.append(x) or x)
+        q = u.Quantity(Fraction(rng.randint(100, 900)), "nanometer")
+        order = ["in", "out"] if rng.random() < 0.5 else ["out", "in"]
+        for where in order + order:
+            del got[:]
+            try:
+                if where == "in":
+                    with u.context("sp"):
+                        g(q)
+                    want = q.to("terahertz", "sp").magnitude
+                    if not got or got[0] != want:
+                        v.append(f"C17 wraps(None, 'terahertz') inside the context sp with {q}: received {got[0] if got else None!r}, expected {want}")
+                else:
+                    g(q)
+                    v.append(f"C17 wraps(None, 'terahertz') outside any context accepted {q} (received {got[0] if got else None!r})")
+            except Exception as exc:  # noqa: BLE001
+                if where == "in" or type(exc).__name__ != "DimensionalityError":
+                    v.append(f"C17 wraps(None, 'terahertz') {where}side the context sp with {q}: raised {type(exc).__name__}")
+        return v
+
     def oracle(self, c):
+        if c["kind"] == "repeat":
+            return self.oracle_repeat(c)
         P = regs.pools()
         v = []
         dup = len({k for k, _ in c["kw"]}) != len(c["kw"])
